@@ -76,6 +76,18 @@ fn diff_logs(t: &Trace, a: &[StepLog], b: &[StepLog]) -> Option<(usize, String)>
                 ),
             ));
         }
+        if la.cb != lb.cb {
+            return Some((
+                ai,
+                format!(
+                    "event #{} {} invoked the eviction callback with {:?} in execution A but {:?} in execution B (order included)",
+                    ai,
+                    ev.op.show(),
+                    la.cb,
+                    lb.cb
+                ),
+            ));
+        }
         if la.post != lb.post {
             return Some((
                 ai,
